@@ -70,6 +70,20 @@ struct ItemSpec {
     /// rename the item (used for canaries: a second copy of the function)
     #[serde(default)]
     clone_as: Option<String>,
+    /// N3: "all" = rewrite every `^`/`&` of the item into `.bitxor()`/`.bitand()`; default: only
+    /// where an operand is syntactically a reference (`&a ^ &b`)
+    #[serde(default)]
+    n3: Option<String>,
+    /// N3: additionally rewrite binary expressions whose text matches one of these regexes
+    #[serde(default)]
+    n3_match: Vec<String>,
+    /// N3b: `A & B` on bools (regexes on the expression text) → `A && B`; operands must be free of
+    /// calls / macros / `?` / await / assignment, so evaluation order cannot matter
+    #[serde(default)]
+    bool_and: Vec<String>,
+    /// N4: names for tuple-pattern parameters, by parameter index ("2" -> "t1")
+    #[serde(default)]
+    arg_names: BTreeMap<String, String>,
 }
 
 #[derive(Deserialize)]
@@ -306,6 +320,9 @@ impl<'ast, 't> Visit<'ast> for LoopCollector<'t> {
 // ---------------------------------------------------------------- normalisation rules
 
 struct Normaliser<'t> {
+    bool_and: Vec<Regex>,
+    n3_all: bool,
+    n3_match: Vec<Regex>,
     text: &'t str,
     edits: Vec<Edit>,
     on: &'t dyn Fn(&str) -> bool,
@@ -543,7 +560,78 @@ impl<'t> Normaliser<'t> {
     }
 }
 
+impl<'t> Normaliser<'t> {
+    /// N3: `A ^ B` → `(A).bitxor(B)`, `A & B` → `(A).bitand(B)` (what rustc desugars the operator to)
+    fn try_n3(&mut self, b: &syn::ExprBinary) -> bool {
+        if !(self.on)("N3") {
+            return false;
+        }
+        let m = match b.op {
+            syn::BinOp::BitXor(_) => "bitxor",
+            syn::BinOp::BitAnd(_) => "bitand",
+            _ => return false,
+        };
+        let is_ref = |e: &syn::Expr| matches!(method_chain_base(e), syn::Expr::Reference(_));
+        let txt = self.t(b.span());
+        if m == "bitand" && self.bool_and.iter().any(|r| r.is_match(txt)) {
+            fn impure(e: &syn::Expr) -> bool {
+                struct R(bool);
+                impl<'a> Visit<'a> for R {
+                    fn visit_expr_call(&mut self, _: &'a syn::ExprCall) { self.0 = true; }
+                    fn visit_expr_method_call(&mut self, _: &'a syn::ExprMethodCall) { self.0 = true; }
+                }
+                let mut r = R(false);
+                r.visit_expr(e);
+                r.0 || has_side_effect_syntax(e)
+            }
+            if impure(&b.left) || impure(&b.right) {
+                return false;
+            }
+            let l = self.t(b.left.span()).to_string();
+            let r = self.t(b.right.span()).to_string();
+            let (s, e) = br(b.span());
+            self.push(s, e, format!("(({}) && ({}))", l, r), "N3b");
+            return true;
+        }
+        let applies = self.n3_all || is_ref(&b.left) || is_ref(&b.right) || self.n3_match.iter().any(|r| r.is_match(txt));
+        if !applies {
+            return false;
+        }
+        let l = self.t(b.left.span()).to_string();
+        let r = self.t(b.right.span()).to_string();
+        let (s, e) = br(b.span());
+        self.push(s, e, format!("({}).{}({})", l, m, r), "N3");
+        true
+    }
+}
+
 impl<'ast, 't> Visit<'ast> for Normaliser<'t> {
+    fn visit_expr_macro(&mut self, m: &'ast syn::ExprMacro) {
+        // N12: `vec![E; N]` → `pv_vec_repeat(E, N)` (vstd cannot specify Clone of tuples, so the
+        // std macro has no usable postcondition for Vec<(Mac, Key)>; the helper's body is `vec![x; n]`)
+        if (self.on)("N12") && m.mac.path.is_ident("vec") {
+            let toks: Vec<proc_macro2::TokenTree> = m.mac.tokens.clone().into_iter().collect();
+            let semi = toks.iter().position(|t| matches!(t, proc_macro2::TokenTree::Punct(p) if p.as_char() == ';'));
+            if let Some(k) = semi {
+                if k > 0 && k + 1 < toks.len() {
+                    let (a0, _) = br(toks[0].span());
+                    let (_, a1) = br(toks[k - 1].span());
+                    let (b0, _) = br(toks[k + 1].span());
+                    let (_, b1) = br(toks[toks.len() - 1].span());
+                    let e = self.text[a0..a1].to_string();
+                    let n = self.text[b0..b1].to_string();
+                    let (s, en) = br(m.span());
+                    self.push(s, en, format!("pv_vec_repeat({}, {})", e, n), "N12");
+                    return;
+                }
+            }
+        }
+        syn::visit::visit_expr_macro(self, m);
+    }
+    fn visit_expr_binary(&mut self, b: &'ast syn::ExprBinary) {
+        self.try_n3(b);
+        syn::visit::visit_expr_binary(self, b);
+    }
     fn visit_expr_for_loop(&mut self, e: &'ast syn::ExprForLoop) {
         let done = self.try_n1(e) || self.try_n10(e) || self.try_n7(e);
         let _ = done;
@@ -649,7 +737,7 @@ impl<'t> Normaliser<'t> {
 }
 
 /// N4 + instrument removal work on the signature
-fn sig_edits(text: &str, fp: &FnParts, on: &dyn Fn(&str) -> bool, edits: &mut Vec<Edit>) {
+fn sig_edits(text: &str, fp: &FnParts, on: &dyn Fn(&str) -> bool, arg_names: &BTreeMap<String, String>, edits: &mut Vec<Edit>) {
     if on("INSTR") {
         for a in fp.attrs {
             let p = a.path();
@@ -665,7 +753,7 @@ fn sig_edits(text: &str, fp: &FnParts, on: &dyn Fn(&str) -> bool, edits: &mut Ve
             if let syn::FnArg::Typed(pt) = arg {
                 if matches!(&*pt.pat, syn::Pat::Tuple(_)) {
                     let (s, e) = br(pt.pat.span());
-                    let name = format!("__pv_arg{}", k);
+                    let name = arg_names.get(&k.to_string()).cloned().unwrap_or_else(|| format!("__pv_arg{}", k));
                     lets.push_str(&format!(" let {} = {};", &text[s..e], name));
                     edits.push(Edit { start: s, end: e, text: name, rule: "N4" });
                 }
@@ -807,8 +895,8 @@ fn main() {
                 _ => fn_parts(&f).into_iter().collect(),
             };
             for fp in &fns {
-                sig_edits(&text, fp, &on, &mut edits);
-                let mut nz = Normaliser { text: &text, edits: vec![], on: &on, eager_futs: vec![] };
+                sig_edits(&text, fp, &on, &it.arg_names, &mut edits);
+                let mut nz = Normaliser { bool_and: it.bool_and.iter().filter_map(|r| Regex::new(r).ok()).collect(), n3_all: it.n3.as_deref() == Some("all"), n3_match: it.n3_match.iter().filter_map(|r| Regex::new(r).ok()).collect(), text: &text, edits: vec![], on: &on, eager_futs: vec![] };
                 nz.visit_block(fp.block);
                 edits.extend(nz.edits);
                 let _ = fp.whole;
